@@ -35,6 +35,7 @@ using namespace vx;
 #define ORC_COUNT 19
 #define ORC_PUT 20
 #define ORC_DELETE 21
+#define ORC_CONCATC 22
 #ifndef VX_ORACLE
 #define VX_ORACLE ORC_NONE
 #endif
@@ -173,6 +174,7 @@ extern "C" void vx_nary()
   if (A[0].lval) verif_assert(unchanged(A[0]), "C05/C10: lvalue argument 1 unchanged by evaluation");
 #else
   if (thrown) verif_assert(unchanged(A[0]) || !A[0].lval, "C09: a rejected in-place method leaves the receiver unchanged");
+  else verif_assert(A[0].v->lvalue() == A[0].lval, "C05/C09: an in-place method leaves the receiver owned by its variable (storage flag kept, so later uses copy it)");
 #endif
   if (VX_NARGS > 1 && A[1].lval) verif_assert(unchanged(A[1]), "C05/C10: lvalue argument 2 unchanged by evaluation");
   if (VX_NARGS > 2 && A[2].lval) verif_assert(unchanged(A[2]), "C05/C10: lvalue argument 3 unchanged by evaluation");
@@ -301,6 +303,16 @@ extern "C" void vx_nary()
     else { verif_assert(!thrown, "C09: delete() succeeds for an in-range position");
       if (!thrown) { Collection* t = A[0].v->collection(); verif_assert((int)t->size() == VX_TLEN - 1, "C09: delete() removes exactly one element");
         for (int k = 0; k < VX_TLEN - 1; ++k) verif_assert(elem_is(t->at(k), VX_K0, A[0].e[k < A[1].i ? k : k + 1], A[0].en[k < A[1].i ? k : k + 1]), "C09: delete() keeps the other elements in order"); } }
+  }
+#elif VX_ORACLE == ORC_CONCATC
+  /* s.concat(<char code>) on a string receiver */
+  if (VX_K0 == K_LITERAL && VX_K1 == K_INTEGER && !A[1].isnull) {
+    if (A[1].i < 0 || A[1].i > 255) verif_assert(thrown && code == EXC_RT_OUT_OF_RANGE, "C10: concat rejects codes outside 0..255 with OUT_OF_RANGE");
+    else { verif_assert(!thrown, "C09: concat of a character code succeeds");
+      if (!thrown && !r->isNull()) { Literal* out = r->literal(); int ol = A[0].isnull ? 0 : A[0].len;
+        verif_assert(r->type() == Value::type_literal && (int)out->size() == ol + 1 && (unsigned char)(*out)[ol] == (unsigned char)A[1].i, "C09: concat appends exactly the given character");
+        for (int k = 0; k < VX_SLEN; ++k) if (k < ol) verif_assert((unsigned char)(*out)[k] == A[0].c[k], "C09: concat keeps the previous content");
+        verif_assert(r == A[0].v, "C09: concat works in place on its receiver"); } }
   }
 #elif VX_ORACLE == ORC_TRIM
   if (VX_K0 == K_LITERAL) { verif_assert(!thrown, "C10: trim is total");
